@@ -1051,7 +1051,7 @@ func inAnyLoopAfter(fn *ssa.Function, from, b *ssa.BasicBlock) bool {
 
 func init() {
 	register(&Rule{ID: "R102", Name: "REGEX-PATTERN", Floor: 8,
-		Text: "the regexp branch of NewMatcher is evaluated (E5) for the eight worlds of (leading %, trailing %, caseSensitive) with the pattern abstracted to a token list [%] BODY [%] (BODY = five opaque bytes): string concatenation, slicing by constants and by len(x)-k, HasPrefix/HasSuffix and the helpers are interpreted; the string handed to regexp.Compile must be exactly [(?i)] [^] BODY [$] - the flag exactly when case-insensitive, an anchor exactly at each end without %, the % itself removed and no byte of BODY removed or kept twice (a pattern `%a.c` must match `xabc`; stripping two bytes would drop the `a`)",
+		Text: "the regexp branch of NewMatcher is evaluated (E5) for the eight worlds of (leading %, trailing %, caseSensitive) with the pattern abstracted to a token list [%] BODY [%] (BODY = five opaque bytes): string concatenation, slicing by constants and by len(x)-k, HasPrefix/HasSuffix and the helpers are interpreted; the string handed to the last regexp.Compile on the path (the matcher's) must be exactly [(?i)] [^] (?:BODY) [$] - the flag exactly when case-insensitive, an anchor exactly at each end without %, the % itself removed, no byte of BODY removed or kept twice (a pattern `%a.c` must match `xabc`; stripping two bytes would drop the `a`), and BODY wrapped in a group whenever an anchor is concatenated to it (`^a|b$` is `^a` or `b$`: like `a|b` would match `axx`); with % at both ends the group is optional",
 		Run:  runR102})
 }
 
@@ -1226,22 +1226,42 @@ func runR102(c *Ctx) {
 			c.undecided(key, p.pos(fn.Pos()), "no regular expression is compiled in this world")
 			continue
 		}
-		var want []string
-		if !cs {
-			want = append(want, "(", "?", "i", ")")
+		// The body must be wrapped in a group whenever an anchor is concatenated to it: ^a|b$ is (^a)|(b$).
+		// Without any anchor the group is optional. The last expression compiled on the path is the matcher's
+		// (an earlier Compile of the bare body that only validates it is fine).
+		build := func(open []string, closeTok []string) string {
+			var want []string
+			if !cs {
+				want = append(want, "(", "?", "i", ")")
+			}
+			if !fs {
+				want = append(want, "^")
+			}
+			want = append(want, open...)
+			want = append(want, "B1", "B2", "B3", "B4", "B5")
+			want = append(want, closeTok...)
+			if !fe {
+				want = append(want, "$")
+			}
+			return strings.Join(want, "")
 		}
-		if !fs {
-			want = append(want, "^")
+		accepted := []string{build([]string{"(", "?", ":"}, []string{")"}), build([]string{"("}, []string{")"})}
+		if fs && fe {
+			accepted = append(accepted, build(nil, nil))
 		}
-		want = append(want, "B1", "B2", "B3", "B4", "B5")
-		if !fe {
-			want = append(want, "$")
+		got := strings.Join(compiled, "")
+		okGot := false
+		for _, a := range accepted {
+			if got == a {
+				okGot = true
+			}
 		}
-		got, exp := strings.Join(compiled, ""), strings.Join(want, "")
-		if got == exp {
+		if okGot {
 			c.ok(key, p.pos(fn.Pos()), "compiles "+got)
+		} else if got == build(nil, nil) {
+			c.bad(key, p.pos(fn.Pos()), fmt.Sprintf("compiles %s: the anchor is concatenated to the bare pattern, so an alternation escapes it (like `a|b` becomes ^a or b$ and matches `axx`); %s is required (B1..B5 stand for the pattern between the wildcards)", got, accepted[0]))
 		} else {
-			c.bad(key, p.pos(fn.Pos()), fmt.Sprintf("compiles %s where %s is required (B1..B5 stand for the pattern between the wildcards)", got, exp))
+			c.bad(key, p.pos(fn.Pos()), fmt.Sprintf("compiles %s where %s is required (B1..B5 stand for the pattern between the wildcards)", got, accepted[0]))
 		}
 	}
 }
